@@ -42,21 +42,12 @@ Fixpoint lrun (fuel : nat) (i : nat) (s : shared) (q : req) (c : pc) (evs : list
   | S f =>
       match c with
       | PDone _ => (s, c, evs)
-      | _ => match step_thread i (in_window c) s q c with
+      | _ => match step_thread i s q c with
              | Some (s', c', e) => lrun f i s' q c' (e ++ evs)
              | None => (s, c, evs)
              end
       end
   end.
-
-Lemma any_window_done ts x : forallb is_done ts = true -> any_window (ts ++ [x]) = in_window (snd x).
-Proof.
-  intro D. unfold any_window. rewrite existsb_app. simpl. rewrite orb_false_r.
-  replace (existsb (fun t => in_window (snd t)) ts) with false; [reflexivity|].
-  symmetry. induction ts as [|[q c] ts IH]; simpl in *; [reflexivity|].
-  apply andb_true_iff in D as [D1 D2]. rewrite (IH D2), orb_false_r.
-  unfold is_done in D1. simpl in D1. destruct c; try discriminate; reflexivity.
-Qed.
 
 Lemma nth_error_last {A} (ts : list A) x : nth_error (ts ++ [x]) (length ts) = Some x.
 Proof. rewrite nth_error_app2, Nat.sub_diag by lia. reflexivity. Qed.
@@ -66,7 +57,7 @@ Proof. induction ts as [|z ts IH]; simpl; [reflexivity|]. rewrite IH. reflexivit
 
 Lemma run_thread_stuck fuel i g :
   (forall q c, nth_error (thr g) i = Some (q, c) ->
-               step_thread i (any_window (thr g)) (sh g) q c = None) ->
+               step_thread i (sh g) q c = None) ->
   run_thread fuel i g = g.
 Proof.
   intro H. induction fuel as [|f IH]; [reflexivity|]. cbn [run_thread].
@@ -82,44 +73,41 @@ Lemma lrun_acc fuel : forall i s q c evs,
 Proof.
   induction fuel as [|f IH]; intros i s q c evs; simpl; [reflexivity|].
   destruct c; try reflexivity.
-  all: match goal with |- context [step_thread ?a ?b ?c ?d ?e] => destruct (step_thread a b c d e) as [[[s1 c1] e1]|] end;
+  all: match goal with |- context [step_thread ?a ?b ?c ?d] => destruct (step_thread a b c d) as [[[s1 c1] e1]|] end;
     try reflexivity.
   all: rewrite (IH _ _ _ _ (e1 ++ evs)), (IH _ _ _ _ (e1 ++ []));
     destruct (lrun f i s1 q c1 []) as [[s2 c2] e2]; rewrite app_nil_r, app_assoc; reflexivity.
 Qed.
 
-Lemma run_thread_lrun fuel : forall ts s q c tr sp ob,
-  forallb is_done ts = true ->
-  let g := run_thread fuel (length ts) (mkG s (ts ++ [(q, c)]) tr sp ob) in
+Lemma run_thread_lrun fuel : forall ts s q c tr,
+  let g := run_thread fuel (length ts) (mkG s (ts ++ [(q, c)]) tr) in
   let '(s', c', e) := lrun fuel (length ts) s q c [] in
   sh g = s' /\ thr g = ts ++ [(q, c')] /\ trace g = e ++ tr.
 Proof.
-  induction fuel as [|f IH]; intros ts s q c tr sp ob D.
+  induction fuel as [|f IH]; intros ts s q c tr.
   - simpl. auto.
   - cbn [run_thread lrun thr]. rewrite nth_error_last.
-    assert (Stuck : step_thread (length ts) (in_window c) s q c = None ->
-                    run_thread f (length ts) (mkG s (ts ++ [(q, c)]) tr sp ob)
-                    = mkG s (ts ++ [(q, c)]) tr sp ob).
+    assert (Stuck : step_thread (length ts) s q c = None ->
+                    run_thread f (length ts) (mkG s (ts ++ [(q, c)]) tr)
+                    = mkG s (ts ++ [(q, c)]) tr).
     { intro N. apply run_thread_stuck. simpl. intros q' c' E.
-      rewrite nth_error_last in E. inversion E; subst.
-      rewrite any_window_done by exact D. exact N. }
-    assert (StuckE : step_thread (length ts) (in_window c) s q c = None ->
-                     exec1 (mkG s (ts ++ [(q, c)]) tr sp ob) (SStep (length ts))
-                     = mkG s (ts ++ [(q, c)]) tr sp ob).
-    { intro N. unfold exec1. simpl. rewrite nth_error_last.
-      rewrite any_window_done by exact D. simpl. rewrite N. reflexivity. }
-    assert (Go : forall s1 c1 e1, step_thread (length ts) (in_window c) s q c = Some (s1, c1, e1) ->
-                 exists sp' ob', exec1 (mkG s (ts ++ [(q, c)]) tr sp ob) (SStep (length ts))
-                 = mkG s1 (ts ++ [(q, c1)]) (e1 ++ tr) sp' ob').
+      rewrite nth_error_last in E. inversion E; subst. exact N. }
+    assert (StuckE : step_thread (length ts) s q c = None ->
+                     exec1 (mkG s (ts ++ [(q, c)]) tr) (SStep (length ts))
+                     = mkG s (ts ++ [(q, c)]) tr).
+    { intro N. unfold exec1. simpl. rewrite nth_error_last. rewrite N. reflexivity. }
+    assert (Go : forall s1 c1 e1, step_thread (length ts) s q c = Some (s1, c1, e1) ->
+                 exec1 (mkG s (ts ++ [(q, c)]) tr) (SStep (length ts))
+                 = mkG s1 (ts ++ [(q, c1)]) (e1 ++ tr)).
     { intros s1 c1 e1 E. unfold exec1. simpl. rewrite nth_error_last.
-      rewrite any_window_done by exact D. simpl. rewrite E, upd_last. eauto. }
+      rewrite E, upd_last. reflexivity. }
     destruct c; try (simpl; auto; fail).
-    all: match goal with |- context [step_thread ?a ?b ?c ?d ?e] =>
-           destruct (step_thread a b c d e) as [[[s1 c1] e1]|] eqn:E end.
+    all: match goal with |- context [step_thread ?a ?b ?c ?d] =>
+           destruct (step_thread a b c d) as [[[s1 c1] e1]|] eqn:E end.
     all: try (rewrite (StuckE eq_refl), (Stuck eq_refl); simpl; auto; fail).
-    all: destruct (Go _ _ _ eq_refl) as (sp' & ob' & X); rewrite X;
+    all: rewrite (Go _ _ _ eq_refl);
       rewrite (lrun_acc f _ _ _ _ (e1 ++ []));
-      specialize (IH ts s1 q c1 (e1 ++ tr) sp' ob' D); simpl in IH;
+      specialize (IH ts s1 q c1 (e1 ++ tr)); simpl in IH;
       destruct (lrun f (length ts) s1 q c1 []) as [[s2 c2] e2];
       destruct IH as (A & B & C); rewrite app_nil_r, <- app_assoc; auto.
 Qed.
@@ -160,8 +148,7 @@ Definition pc_ok (q : req) (c : pc) : bool :=
   match c with
   | PU_seed | PU_check | PU_cas | PU_timer =>
       match q with QUnlock _ _ _ => true | _ => false end
-  | PS_flag | PS_seed | PS_load | PS_cas _ | PS_verify _ | PS_gs_flag _ | PS_gs_seed _
-  | PS_write _ | PS_restore _ _ =>
+  | PS_flag | PS_seed | PS_verify | PS_hasseed | PS_write =>
       match q with QSetPasswd _ _ => true | _ => false end
   | PV_do => match q with QSaveSeed _ => true | _ => false end
   | PAcq => match q with QLock | QIsLocked | QStatus => false | _ => true end
@@ -171,11 +158,10 @@ Definition pc_ok (q : req) (c : pc) : bool :=
 Definition rank (c : pc) : nat :=
   match c with
   | PDone _ => 0 | PRel _ => 1
-  | PAcq => 11
+  | PAcq => 7
   | PU_seed => 5 | PU_check => 4 | PU_cas => 3 | PU_timer => 2
   | PL_seed => 2 | PL_cas => 1
-  | PS_flag => 10 | PS_seed => 9 | PS_load => 8 | PS_cas _ => 7 | PS_verify _ => 6
-  | PS_gs_flag _ => 5 | PS_gs_seed _ => 4 | PS_write _ => 3 | PS_restore _ _ => 2
+  | PS_flag => 6 | PS_seed => 5 | PS_verify => 4 | PS_hasseed => 3 | PS_write => 2
   | PX_flag => 4 | PX_seed => 3 | PX_secret => 2
   | PO_read => 2 | PO_seed _ => 1
   | PV_do => 2
@@ -188,17 +174,17 @@ Ltac step_inv H :=
          end;
   injection H as ? ? ?; subst.
 
-Lemma step_rank i w s q c s' c' evs :
-  step_thread i w s q c = Some (s', c', evs) -> (rank c' < rank c)%nat.
+Lemma step_rank i s q c s' c' evs :
+  step_thread i s q c = Some (s', c', evs) -> (rank c' < rank c)%nat.
 Proof.
   intro H. destruct c; simpl in H; try discriminate H.
   all: try (step_inv H; simpl; lia).
   (* PAcq *) step_inv H. destruct q; simpl; lia.
 Qed.
 
-Lemma step_progress i w s q c :
+Lemma step_progress i s q c :
   pc_ok q c = true -> (forall r, c <> PDone r) -> (c = PAcq -> mtx s = None) ->
-  step_thread i w s q c <> None.
+  step_thread i s q c <> None.
 Proof.
   intros P D A. destruct c; simpl in *; try discriminate.
   - rewrite A by reflexivity. discriminate.
@@ -219,8 +205,8 @@ Proof.
     destruct (valid_pw p); discriminate.
 Qed.
 
-Lemma step_pc_ok i w s q c s' c' evs :
-  step_thread i w s q c = Some (s', c', evs) -> pc_ok q c = true -> pc_ok q c' = true.
+Lemma step_pc_ok i s q c s' c' evs :
+  step_thread i s q c = Some (s', c', evs) -> pc_ok q c = true -> pc_ok q c' = true.
 Proof.
   intros H P. destruct c; simpl in H; try discriminate H.
   all: try (step_inv H; simpl in *; try reflexivity; try assumption; fail).
@@ -229,18 +215,16 @@ Qed.
 
 (** what is known about the flag at each pc of a request that runs alone *)
 Definition flag_clause (s : shared) (q : req) (c : pc) (tr : list event) : Prop :=
-  if in_window c then locked s = false
-  else match c with
-       | PU_timer => locked s = false /\
-                     exists p0 T tk, q = QUnlock p0 T tk /\ last_unlock tr = Some (T, now s)
-       | _ => TQ s tr
-       end.
+  match c with
+  | PU_timer => locked s = false /\
+                exists p0 T tk, q = QUnlock p0 T tk /\ last_unlock tr = Some (T, now s)
+  | _ => TQ s tr
+  end.
 
 Record LI (n : nat) (tr0 : list event) (s : shared) (q : req) (c : pc) (evs : list event) : Prop := mkLI {
   li_pc : pc_ok q c = true;
   li_mtx : mtx s = if holds c then Some n else None;
   li_k1 : K1 s;
   li_obs : obs_ok_timed (evs ++ tr0) = true;
-  li_cas : forall t, c = PS_cas t -> t = locked s;
   li_flag : flag_clause s q c (evs ++ tr0);
 }.
